@@ -12,6 +12,7 @@
             pp[e]   = <<pet_hi, pet_lo, mk_hi, mk_lo, tp_hi, tp_lo, adj_hi, adj_lo>>
             aff[e]  = <<a, b, ts_some, slope_num, slope_res, icpt_num, icpt_res, med_some, med_num, med_res>>  (affine maps a*v+b)
             big[e]  = <<exp, med_some, med_num, med_res>>   median of x * 2^exp, scaled back (extreme magnitudes, exact scaling)
+     ts     x (8..13 points): aff[e] as above plus the Mann-Kendall S as 11th entry
      split  x, t: r[e] = <<some, p_num, p_res, sup_num, sup_res, swp_num, swp_res, swsup_num, swsup_res,
                            cp_num, cp_res, cs_num, cs_res, p_hi, p_lo>>
      bh     p = <<<<num, den>>, ..>>, q = <<num, den>>, m, panic, keep
@@ -86,6 +87,15 @@ SeqOk(r) ==
     /\ \A e \in DOMAIN r.big : BigRowOk(ex, r.big[e])
     /\ r.frac = 0
 
+\* ts: Theil-Sen line, median and Mann-Kendall S of 8..13 noisy points (beyond the exhaustive bound), under the affine maps
+TsOk(r) ==
+    LET x == r.x
+        m2 == TSSlope2L(x)
+        ex == [n |-> Len(x), sl |-> m2, ic |-> TSIcptOf(x, m2), l4 |-> 4 * TSL(x), med |-> Med2(x)]
+        s == MKReportedS(x) IN
+    /\ \A e \in DOMAIN r.aff : AffRowOk(ex, r.aff[e]) /\ r.aff[e][11] = s
+    /\ r.frac = 0
+
 -----------------------------------------------------------------------------
 \* split
 SplitRowOk(x, t, row, pn, u) ==
@@ -139,6 +149,7 @@ OrdOk(prev, r) ==
 Accept(r, prev) ==
     CASE r.op = "seq" -> SeqOk(r)
       [] r.op = "split" -> SplitOk(r)
+      [] r.op = "ts" -> TsOk(r)
       [] r.op = "bh" -> BHOk(r)
       [] r.op = "mwempty" -> MWEmptyOk(r)
       [] r.op = "range" -> RangeOk(r)
